@@ -143,7 +143,9 @@ const std::string* find_call(const RunRecord& rec, const char* prefix) {
 }
 int reverse_lowupp(int st) { return st == 3 ? 4 : st == 4 ? 3 : st; }   // BasicStatus: low=3, upp=4
 
-struct Image { int kind = 0; int group = 0, idx = 0, slack_var = -1; };   // kind: 0 none, 1 direct, 2 slack
+// kind: 0 none, 1 direct, 2 slack.  rev: the row is body + slack = ub, so the slack sits at its lower bound when the body is at
+// its upper one (statuses exchange low/upp); body - slack = lb is the other algebraically valid form, without exchange.
+struct Image { int kind = 0; int group = 0, idx = 0, slack_var = -1; bool rev = true; };
 
 void judge(const sim::Json& sc, const RunRecord& rec, sim::RunResult& r) {
   std::string viol, key, detail;
@@ -176,7 +178,11 @@ void judge(const sim::Json& sc, const RunRecord& rec, sim::RunResult& r) {
       if (extra.empty() && dc.lb == lb && dc.ub == ub) { ++found; im.kind = 1; im.group = dc.group; im.idx = dc.idx_in_group; }
       else if (extra.size() == 1 && extra[0].coef == 1.0 && dc.kind == 0 && dc.lb == ub && extra[0].var < (int)sm.vars.size() &&
                sm.vars[extra[0].var].lb == 0.0 && sm.vars[extra[0].var].ub == ub - lb) {
-        ++found; im.kind = 2; im.group = dc.group; im.idx = dc.idx_in_group; im.slack_var = extra[0].var;
+        ++found; im.kind = 2; im.group = dc.group; im.idx = dc.idx_in_group; im.slack_var = extra[0].var; im.rev = true;
+      }
+      else if (extra.size() == 1 && extra[0].coef == -1.0 && dc.kind == 0 && dc.lb == lb && extra[0].var < (int)sm.vars.size() &&
+               sm.vars[extra[0].var].lb == 0.0 && sm.vars[extra[0].var].ub == ub - lb) {
+        ++found; im.kind = 2; im.group = dc.group; im.idx = dc.idx_in_group; im.slack_var = extra[0].var; im.rev = false;
       }
     }
     if (found == 1) { img[(size_t)i] = im; if (im.kind == 1) ++n_direct; else ++n_slack; }
@@ -225,7 +231,7 @@ void judge(const sim::Json& sc, const RunRecord& rec, sim::RunResult& r) {
       for (long i = 0; i < m; ++i) {
         const Image& im = img[(size_t)i];
         if (!im.kind || im.group != CG_LIN) continue;
-        int want = im.kind == 1 ? SimBackend::StatusTag(bsalt + CG_LIN, im.idx) : reverse_lowupp(SimBackend::StatusTag(bsalt, im.slack_var));
+        int want = im.kind == 1 ? SimBackend::StatusTag(bsalt + CG_LIN, im.idx) : im.rev ? reverse_lowupp(SimBackend::StatusTag(bsalt, im.slack_var)) : SimBackend::StatusTag(bsalt, im.slack_var);
         if ((int)mc[(int)i] != want)
           flag("WRONG_CON_STATUS", im.kind == 1 ? "direct" : "slack", "constraint " + std::to_string(i) + " sstatus " + std::to_string((int)mc[(int)i]) + ", expected " + std::to_string(want) +
                (im.kind == 2 ? " (slack variable's status with low/upp exchanged)" : " (the row's status)"));
@@ -265,7 +271,7 @@ void judge(const sim::Json& sc, const RunRecord& rec, sim::RunResult& r) {
         if (im.kind != 2 || im.group != CG_LIN) continue;
         int sl = SimBackend::IISTag(isalt, im.slack_var);
         // the slack's flag with lower/upper exchanged (low<->upp, plow<->pupp; fix, mem, pmem as they are); the row's own flag if the slack has none
-        int want = sl == 1 ? 3 : sl == 3 ? 1 : sl == 6 ? 7 : sl == 7 ? 6 : sl == 0 ? SimBackend::IISTag(isalt + CG_LIN, im.idx) : sl;
+        int want = sl == 0 ? SimBackend::IISTag(isalt + CG_LIN, im.idx) : !im.rev ? sl : sl == 1 ? 3 : sl == 3 ? 1 : sl == 6 ? 7 : sl == 7 ? 6 : sl;
         if (want >= 0 && (int)mc[(int)i] != want) flag("WRONG_CON_IIS", "slack", "range constraint " + std::to_string(i) + " iis " + std::to_string((int)mc[(int)i]) + ", expected " + std::to_string(want) + " (slack flag " + std::to_string(sl) + ")");
       }
     }
@@ -346,7 +352,7 @@ void judge(const sim::Json& sc, const RunRecord& rec, sim::RunResult& r) {
           if (im.kind == 1) { if (g[(size_t)im.idx] != want) flag("WRONG_BASIS_IN", "direct", "status " + gen::fmt_double(want) + " of constraint " + std::to_string(i) + " arrived as " + gen::fmt_double(g[(size_t)im.idx])); }
           else {
             if (g[(size_t)im.idx] != 5.0) flag("WRONG_BASIS_IN", "slack-row", "equality row of range constraint " + std::to_string(i) + " got status " + gen::fmt_double(g[(size_t)im.idx]) + " instead of 'equ'");
-            if (im.slack_var < (int)v.size() && v[(size_t)im.slack_var] != (double)reverse_lowupp((int)want))
+            if (im.slack_var < (int)v.size() && v[(size_t)im.slack_var] != (double)(im.rev ? reverse_lowupp((int)want) : (int)want))
               flag("WRONG_BASIS_IN", "slack-var", "status " + gen::fmt_double(want) + " of range constraint " + std::to_string(i) + " arrived on its slack as " + gen::fmt_double(v[(size_t)im.slack_var]));
           }
         }
